@@ -158,6 +158,137 @@ def conflict_monitor(dispatcher, args, kwargs=None, max_events=400000):
             "hazards": hazards}
 
 
+# ----------------------------------------------------------------------------- emulated parallel runtime
+def _reduction_names(py):
+    """names that are augmented-assigned inside a prange loop but bound outside it (numba treats those as
+    reductions; the emulation below cannot) -> set of names, or None if the source cannot be analysed"""
+    import ast
+    import inspect
+    import textwrap
+    try:
+        tree = ast.parse(textwrap.dedent(inspect.getsource(py)))
+    except (OSError, SyntaxError, TypeError):
+        return None
+    out = set()
+    for node in ast.walk(tree):
+        if isinstance(node, ast.For) and isinstance(node.iter, ast.Call) and getattr(node.iter.func, "id", "") == "prange":
+            assigned = {t.id for n in ast.walk(node) if isinstance(n, ast.Assign) for t in n.targets if isinstance(t, ast.Name)}
+            for n in ast.walk(node):
+                if isinstance(n, ast.AugAssign) and isinstance(n.target, ast.Name) and n.target.id not in assigned:
+                    out.add(n.target.id)
+    return out
+
+
+def emulated_parallel(dispatcher, args, kwargs=None, nthreads=4, seed=0, yield_prob=0.5, timeout=120.0):
+    """Execute the pure-Python body of a kernel under an *emulated* parallel runtime: `nthreads` Python threads
+    each run the function, `prange` hands thread t the iterations i = t (mod nthreads), arrays allocated before
+    the loop are shared between the threads (as the single allocation of the real kernel is), all threads meet
+    at a barrier when the loop ends, and every access to a shared array is a possible context switch
+    (time.sleep(0) with probability `yield_prob`, tiny switch interval).  Iterations of a prange loop may run in
+    any interleaving, so a correct kernel returns the sequential result under every such schedule.
+    -> ("ok", result) | ("skipped", reason) | ("failed", reason)"""
+    import random
+    import sys
+    import threading
+    import time
+    py = dispatcher.py_func
+    red = _reduction_names(py)
+    if red is None:
+        return "skipped", "source not available"
+    if red:
+        return "skipped", f"prange reduction on {sorted(red)} (not emulated)"
+    if "prange" not in py.__code__.co_names:
+        return "skipped", "the kernel has no prange loop (sequential code: nothing to interleave)"
+    shared = []
+    lock = threading.Lock()
+    barrier = threading.Barrier(nthreads)
+    tls = threading.local()
+    rnd = random.Random(seed)
+    results = [None] * nthreads
+    errors = []
+
+    class SharedArr(np.ndarray):
+        def __getitem__(self, key):
+            if getattr(tls, "in_loop", False) and rnd.random() < yield_prob:
+                time.sleep(0)
+            return np.asarray(self).__getitem__(key)
+
+        def __setitem__(self, key, value):
+            if getattr(tls, "in_loop", False) and rnd.random() < yield_prob:
+                time.sleep(0)
+            np.asarray(self).__setitem__(key, value)
+
+    def alloc(maker):
+        if getattr(tls, "in_loop", False):
+            return maker()                       # temporaries of one iteration are private
+        k = tls.nalloc
+        tls.nalloc += 1
+        with lock:
+            if k >= len(shared):
+                shared.append(maker().view(SharedArr))
+            return shared[k]
+
+    class NPShim:
+        def __getattr__(self, name):
+            return getattr(np, name)
+
+        @staticmethod
+        def zeros(*a, **k):
+            return alloc(lambda: np.zeros(*a, **k))
+
+        @staticmethod
+        def full(*a, **k):
+            return alloc(lambda: np.full(*a, **k))
+
+        @staticmethod
+        def empty(*a, **k):
+            return alloc(lambda: np.zeros(*a, **k))
+
+    used = []
+
+    def prange_gen(*a):
+        used.append(1)
+        barrier.wait(timeout)
+        tls.in_loop = True
+        for i in range(*a):
+            if (i - (a[0] if len(a) > 1 else 0)) % nthreads == tls.tid:
+                yield i
+        tls.in_loop = False
+        barrier.wait(timeout)
+
+    g = dict(py.__globals__)
+    g.update(prange=prange_gen, np=NPShim(), get_thread_id=lambda: tls.tid, get_num_threads=lambda: nthreads)
+    fn = types.FunctionType(py.__code__, g, py.__name__, py.__defaults__, py.__closure__)
+
+    def run(t):
+        tls.tid, tls.nalloc, tls.in_loop = t, 0, False
+        try:
+            with np.errstate(all="ignore"):
+                results[t] = fn(*args, **(kwargs or {}))
+        except Exception as e:  # noqa: BLE001
+            errors.append(f"{type(e).__name__}: {e}")
+            try:
+                barrier.abort()
+            except Exception:  # noqa: BLE001
+                pass
+    old = sys.getswitchinterval()
+    sys.setswitchinterval(1e-5)
+    try:
+        ths = [threading.Thread(target=run, args=(t,), daemon=True) for t in range(nthreads)]
+        for t in ths:
+            t.start()
+        for t in ths:
+            t.join(timeout)
+    finally:
+        sys.setswitchinterval(old)
+    if not used:
+        return "skipped", "the kernel has no prange loop (sequential code: nothing to interleave)"
+    if errors or any(t.is_alive() for t in ths):
+        return "failed", (errors[0] if errors else "emulation timed out")
+    r = results[0]
+    return "ok", tuple(np.asarray(x) for x in r) if isinstance(r, tuple) else (np.asarray(r),)
+
+
 # ----------------------------------------------------------------------------- the sweep
 def sweep(res, dispatcher, args, kwargs, reference, label, reps, compare, threads=THREADS, chunks=CHUNKS):
     """Run the shipped kernel under many configurations; `compare(result, reference)` returns None or a
@@ -275,6 +406,19 @@ def run_hist_kernel_case(case, ctx, res):
     cm = conflict_monitor(pu.hist2d, (x[:m], y[:m], vals[:, :m]) + args[3:])
     res.count("conflict-monitor-runs")
     lost = [h for h in cm["hazards"] if h["lost_update"]]
+    # 3b. emulated parallel runtime with forced context switches on the small prefix
+    small_args = (x[:m], y[:m], vals[:, :m]) + args[3:]
+    small_ref = hist_oracle(*small_args)
+    for k in range(3 if not big else 10):
+        st, em = emulated_parallel(pu.hist2d, small_args, nthreads=4, seed=case["i"] * 31 + k)
+        res.count("emulated-schedules" if st == "ok" else "emulation-" + st)
+        if st == "ok":
+            msg = compare(em, small_ref)
+            if msg:
+                res.violate("schedule-dependent-result", f"{label}: under an emulated interleaving of the prange iterations (4 threads, "
+                            f"forced context switches at array accesses, {m} points) the result differs from the sequential one: {msg}",
+                            hazards=lost[:2])
+                break
     # 1. sweep of the shipped build
     info = sweep(res, pu.hist2d, args, None, ref, label, reps=3 if not big else 15, compare=compare)
     info.update(prange_loops=cm["prange_loops"], hazards=len(cm["hazards"]), lost_update_hazards=len(lost))
@@ -384,6 +528,31 @@ def run_map_kernel_case(case, ctx, res, thick):
     small["grid_spacing_in_new_basis_y"] = kk["grid_spacing_in_new_basis_y"] * 4
     cm = conflict_monitor(pu.evaluate_on_grid, (), small)
     res.count("conflict-monitor-runs")
+    try:
+        small_ref = seq(**small)
+        sgp = small["grid_positions_in_original_basis"]
+        sface = face[:, ::4, ::4]
+
+        def compare_small(outs, reference):
+            o = outs[0]
+            same = (o == reference) | (np.isnan(o) & np.isnan(reference))
+            diff = ~same & ~sface[None, ...]
+            if diff.any():
+                idx = tuple(int(v) for v in np.argwhere(diff)[0])
+                return f"{int(diff.sum())} non-face pixels differ (first at {idx}: {o[idx]!r} vs {reference[idx]!r})"
+            return None
+        for k in range(2 if ctx.tier == "quick" else 8):
+            st, em = emulated_parallel(pu.evaluate_on_grid, (), small, nthreads=4, seed=case["i"] * 17 + k)
+            res.count("emulated-schedules" if st == "ok" else "emulation-" + st)
+            if st == "ok":
+                msg = compare_small(em, small_ref)
+                if msg:
+                    res.violate("schedule-dependent-result", f"{label}: under an emulated interleaving of the prange iterations "
+                                f"(4 threads, forced context switches, {m} cells) the result differs from the sequential one: {msg}",
+                                hazards=cm["hazards"][:2])
+                    break
+    except IndexError:
+        pass
     info = sweep(res, pu.evaluate_on_grid, (), kk, ref, label, reps=2 if ctx.tier == "quick" else 10, compare=compare,
                  threads=[1, 2, 4, 16] if ctx.tier == "quick" else THREADS, chunks=[0, 7] if ctx.tier == "quick" else CHUNKS)
     info.update(prange_loops=cm["prange_loops"], write_write_hazards=len(cm["hazards"]), face_pixels=int(face.sum()))
